@@ -8,6 +8,7 @@ package c05
 import (
 	"fmt"
 	"math/big"
+	"strings"
 
 	"verifh/mon"
 	"verifh/ref/ec"
@@ -214,8 +215,8 @@ func searchNonX(start *big.Int) *big.Int {
 	return nil
 }
 
-// Polynomials over F_p, little-endian coefficients, used only to find points with a
-// tiny ordinate: for a given y0 the abscissae are the roots of x^3-3x+(b-y0^2).
+// Polynomials over F_p, little-endian coefficients: remainder and gcd for the cubic root
+// finder of polypts.go (for a given y0 the abscissae are the roots of x^3-3x+(b-y0^2)).
 type poly []*big.Int
 
 func (a poly) norm() poly {
@@ -223,25 +224,6 @@ func (a poly) norm() poly {
 		a = a[:len(a)-1]
 	}
 	return a
-}
-
-func pmul(a, b poly) poly {
-	if len(a) == 0 || len(b) == 0 {
-		return nil
-	}
-	r := make(poly, len(a)+len(b)-1)
-	for i := range r {
-		r[i] = new(big.Int)
-	}
-	for i := range a {
-		for j := range b {
-			r[i+j].Add(r[i+j], mul(a[i], b[j]))
-		}
-	}
-	for i := range r {
-		r[i].Mod(r[i], ec.P)
-	}
-	return r.norm()
 }
 
 // prem returns a mod f (f != 0).
@@ -274,32 +256,11 @@ func pgcd(a, b poly) poly {
 // uniqueXForY returns the unique abscissa with ordinate y0 when the cubic has exactly one
 // root in F_p (nil otherwise: none or three roots; the caller simply tries the next y0).
 func uniqueXForY(y0 *big.Int) *big.Int {
-	f := poly{modP(sub(ec.B, mul(y0, y0))), modP(bi(-3)), new(big.Int), bi(1)}
-	// h = x^p mod f
-	h := poly{bi(1)}
-	xp := poly{new(big.Int), bi(1)}
-	for i := ec.P.BitLen() - 1; i >= 0; i-- {
-		h = prem(pmul(h, h), f)
-		if ec.P.Bit(i) == 1 {
-			h = prem(pmul(h, xp), f)
-		}
-	}
-	// h - x
-	d := make(poly, 3)
-	for i := range d {
-		d[i] = new(big.Int)
-		if i < len(h) {
-			d[i].Set(h[i])
-		}
-	}
-	d[1] = modP(sub(d[1], one))
-	g := pgcd(f, d)
-	if len(g) != 2 {
+	rs := cubic{modP(sub(ec.B, mul(y0, y0)))}.roots()
+	if len(rs) != 1 {
 		return nil
 	}
-	// g = g0 + g1 x  ->  root = -g0/g1
-	inv := new(big.Int).ModInverse(g[1], ec.P)
-	return modP(mul(sub(ec.P, g[0]), inv))
+	return rs[0]
 }
 
 // smallY finds, by trying y0 = 1,2,3..., the first `count` points whose ordinate is tiny
@@ -321,8 +282,8 @@ type pointSet struct {
 	small    []*npoint // ±kG, k = 1..64 (index 2(k-1) is +kG, 2(k-1)+1 is -kG)
 	extreme  []*npoint
 	random   []*npoint
-	all      []*npoint // inf + small + extreme + random
-	sparse   []*npoint // coordinates with few set bits: first abscissa >= 2^k for every k, ordinates 2^k (not part of all)
+	all      []*npoint  // inf + small + extreme + random
+	sparse   []*npoint  // coordinates with few set bits: first abscissa >= 2^k for every k, ordinates 2^k (not part of all)
 	nonX     []*big.Int // abscissae (in [0,p)) that belong to no point
 	smallXok bool       // an extreme point with x+p < 2^256 exists
 	smallYok bool       // an extreme point with y+p < 2^256 exists
@@ -434,15 +395,15 @@ func buildPoints(x *mon.Ctx, nrand int, sparse bool) *pointSet {
 			}
 		}
 		for _, mv := range montSet(ec.P, "p", false) {
-			if ny >= 28 || len(mv.name) < 5 || mv.name[:5] != "floor" {
-				continue // ordinates: thresholds only (a cubic has to be solved for each try)
+			if !x.Thorough() && (strings.HasPrefix(mv.name, "2^") || strings.HasPrefix(mv.name, "p-2^")) {
+				continue // ordinates (a cubic has to be solved for each try): ends, thresholds, limb patterns
 			}
 			m := new(big.Int).Set(mv.m)
-			for step := 0; step < 6; step++ {
+			for step := 0; step < 8 && m.Sign() >= 0 && m.Cmp(ec.P) < 0; step++ {
 				yv := modP(mul(m, rinv))
-				if xv := uniqueXForY(yv); xv != nil {
-					pt := ec.Point{X: xv, Y: yv}
-					if !ec.OnCurve(pt.X, pt.Y) {
+				if rs := (cubic{modP(sub(ec.B, mul(yv, yv)))}).roots(); len(rs) > 0 {
+					pt := ec.Point{X: rs[ny%len(rs)], Y: yv}
+					if !ec.OnCurve(pt.X, pt.Y) || modP(mul(pt.Y, p256)).Cmp(m) != 0 {
 						x.HarnessError("Montgomery-domain ordinate search is wrong for %s", mv.name)
 					}
 					ps.sparse = append(ps.sparse, &npoint{name: fmt.Sprintf("y=R^-1*(%s%+d)", mv.name, int64(step)*mv.dir), kind: "mont-y", p: pt})
@@ -452,9 +413,15 @@ func buildPoints(x *mon.Ctx, nrand int, sparse bool) *pointSet {
 				m = add(m, bi(mv.dir))
 			}
 		}
-		if nx < 40 || ny < 10 {
+		if nx < 40 || ny < 40 {
 			x.HarnessError("Montgomery-domain point search found only %d abscissae / %d ordinates", nx, ny)
 		}
+		// points whose INTERMEDIATE values in the decoders' on-curve polynomial are structured (polypts.go)
+		ps.sparse = append(ps.sparse, polyPoints(x)...)
+		for _, p := range ps.sparse {
+			x.Event("points/"+p.kind, 1)
+		}
+		x.Event("cubic_solves", nRoots)
 	}
 	ps.all = append(ps.all, ps.inf)
 	ps.all = append(ps.all, ps.small...)
@@ -482,6 +449,52 @@ func selfTest(x *mon.Ctx) {
 		if !tb.mulSplit(hi, lo).Equal(ec.Mul(add(hi, lo), pt)) || !tb.mulMemo(lo).Equal(ec.Mul(lo, pt)) {
 			x.HarnessError("split / memoised multiplication disagrees with ec.Mul")
 		}
+	}
+	// the cubic root finder: in-place against plain arithmetic, a cubic with one known root, a cubic that splits
+	for i := int64(1); i <= 3; i++ {
+		f := cubic{modP(mul(bi(i), ec.Gx))}
+		a, b := f.powX(bi(i-1), ec.P), f.powLin(bi(i-1), ec.P)
+		for j := range a {
+			if a[j].Cmp(b[j]) != 0 {
+				x.HarnessError("cubic.powX disagrees with cubic.powLin")
+			}
+		}
+	}
+	has := func(rs []*big.Int, v *big.Int) bool {
+		for _, r := range rs {
+			if r.Cmp(v) == 0 {
+				return true
+			}
+		}
+		return false
+	}
+	split := 0
+	for r1 := int64(1); r1 < 24; r1++ {
+		f := cubic{modP(sub(mul(three, bi(r1)), bi(r1*r1*r1)))} // r1 is a root of x^3 - 3x + c
+		rs := f.roots()
+		if !has(rs, bi(r1)) {
+			x.HarnessError("cubic.roots misses the known root %d", r1)
+		}
+		// the other roots are those of x^2 + r1 x + r1^2 - 3: discriminant 12 - 3 r1^2
+		if r1 == 2 {
+			continue // (x-2)(x+1)^2: a repeated root
+		}
+		if s := new(big.Int).ModSqrt(modP(bi(12-3*r1*r1)), ec.P); s != nil {
+			r2 := modP(mul(sub(s, bi(r1)), new(big.Int).ModInverse(two, ec.P)))
+			r3 := modP(sub(bi(-r1), r2))
+			if r2.Cmp(bi(r1)) == 0 || r3.Cmp(bi(r1)) == 0 {
+				continue // a repeated root (r1 = 1: (x-1)^2 (x+2))
+			}
+			if len(rs) != 3 || !has(rs, r2) || !has(rs, r3) {
+				x.HarnessError("cubic.roots does not return the three roots of a cubic that splits (r1=%d)", r1)
+			}
+			split++
+		} else if len(rs) != 1 {
+			x.HarnessError("cubic.roots returns %d roots for a cubic with one root (r1=%d)", len(rs), r1)
+		}
+	}
+	if split < 3 {
+		x.HarnessError("cubic self-test met only %d splitting cubics", split)
 	}
 	if !refBase(ec.N).Inf || !refBase(add(ec.N, one)).Equal(ec.G) {
 		x.HarnessError("[n]G / [n+1]G wrong in table multiplication")
